@@ -289,11 +289,12 @@ impl<'a> Parser<'a> {
             "null" => Ok(Value::Null),
             "true" => Ok(Value::Bool(true)),
             "false" => Ok(Value::Bool(false)),
-            number => Ok(Value::Number(
+            number if is_number(number) => Ok(Value::Number(
                 number
                     .parse()
                     .map_err(|_| self.traceback(ParseError::InvalidToken))?,
             )),
+            _ => Err(self.traceback(ParseError::InvalidToken)),
         }
     }
 
@@ -340,6 +341,44 @@ fn quiet_assert(condition: bool, error: TracebackError) -> Result<(), TracebackE
 /// Check whether a character is whitespace according to the specification.
 fn is_whitespace(c: impl Borrow<char>) -> bool {
     matches!(c.borrow(), ' ' | '\t' | '\n' | '\r')
+}
+
+/// Check whether a literal is a number according to the specification, that is
+///   `-? (0 | [1-9][0-9]*) (\.[0-9]+)? ([eE][+-]?[0-9]+)?`.
+///
+/// This is stricter than `f64::from_str`, which also accepts `NaN`, `inf`, `+1`, `01`, `.5` and `1.`.
+fn is_number(s: &str) -> bool {
+    fn digits(s: &str) -> (usize, &str) {
+        let n = s.bytes().take_while(u8::is_ascii_digit).count();
+        (n, &s[n..])
+    }
+
+    let s = s.strip_prefix('-').unwrap_or(s);
+
+    let s = match digits(s) {
+        (0, _) => return false,
+        (n, _) if n > 1 && s.starts_with('0') => return false,
+        (_, rest) => rest,
+    };
+
+    let s = match s.strip_prefix('.') {
+        Some(fraction) => match digits(fraction) {
+            (0, _) => return false,
+            (_, rest) => rest,
+        },
+        None => s,
+    };
+
+    match s.strip_prefix(|c| c == 'e' || c == 'E') {
+        Some(exponent) => {
+            let exponent = exponent
+                .strip_prefix(|c| c == '+' || c == '-')
+                .unwrap_or(exponent);
+
+            matches!(digits(exponent), (n, "") if n > 0)
+        }
+        None => s.is_empty(),
+    }
 }
 
 /// Check whether the character is reserved.
